@@ -33,6 +33,9 @@ def _pair(S, fam, a, b, lam1=1, lam2=(1, 0), fe=None, fqc=False):
         o = PL.call(S.pair(fam).pairing, lq, lp)
     else:
         o = PL.call(S.pair(fam).pairing, lq, lp, final_exponentiate=fe)
+        if o[0] == "raise" and o[1] in ("TypeError", "ValueError") and type(fe) is not bool:
+            # an implementation may insist on a bool: then the bool of the same truth value is what is asked
+            o = PL.call(S.pair(fam).pairing, lq, lp, final_exponentiate=bool(fe))
     return o
 
 
